@@ -21,6 +21,7 @@ def jobs(tier):
         mk('C06', 'x2/other_running', S.two_bus_await('other_running', ('A', 'B'), yield_first=False)),
         mk('C06', 'par/AB', S.parallel_handlers(('A', 'B'))),
         mk('C06', 'three_bus_stop', S.three_bus_stop()),
+        mk('C06', 'late_first_use', S.late_first_use()),
         mk('C06', 'mixed_classes/A_first', S.mixed_bus_classes('A')),
         mk('C06', 'mixed_classes/B_first', S.mixed_bus_classes('B')),
     ]
